@@ -84,7 +84,7 @@ Theorem c09_batches_cover :
   forall mk mi s n, wf s ->
     let r := run_sched mk mi (repeat Step n) (run_init s) in
     sh_done (r_sh r) = true ->
-    (forall k i v, In (CSet k i v) (sh_out (r_sh r)) <-> lookup k i s = Some v) /\
+    (forall k i v, In (rec_cmd k i v) (sh_out (r_sh r)) <-> lookup k i s = Some v) /\
     rec_sorted (sh_out (r_sh r)).
 Proof. exact batches_cover. Qed.
 Print Assumptions c09_batches_cover.
@@ -151,6 +151,94 @@ Theorem c09_two_rewrites :
 Proof. exact two_rewrites. Qed.
 Print Assumptions c09_two_rewrites.
 
+(* The record the snapshot writes for an object recreates exactly that object (fields, deadline
+   flag, payload) on a dataset that does not hold it. *)
+Theorem c09_snapshot_record_exact :
+  forall k i o s, wf s -> msorted (o_fields o) -> lookup k i s = None ->
+    lookup k i (fst (exec s (rec_cmd k i o))) = Some o.
+Proof. exact snapshot_record_exact. Qed.
+Print Assumptions c09_snapshot_record_exact.
+
+(* The shrinklog of a run (no RENAME) is idempotent on the states of that run: replaying the whole
+   log on the dataset as it was after any prefix l1 of the log gives the final live dataset.  (The
+   snapshot holds every object as it was at some such moment.) *)
+Theorem c09_log_entries_idempotent :
+  forall mk mi s0 sched l1 l2, wf s0 -> no_rename sched = true ->
+    let r := run_sched mk mi sched (run_init s0) in
+    r_log r = l1 ++ l2 ->
+    same_data (replay (r_log r) (replay l1 s0)) (r_live r).
+Proof. exact log_replay_idempotent. Qed.
+Print Assumptions c09_log_entries_idempotent.
+
+(* Per object: acts l k i is the effect of the command list l on the object (k,i) (act: SET keeps
+   the old fields, FSET / EXPIRE / PERSIST only act on an existing object, DEL / PDEL / DROP /
+   FLUSHDB reset); okl says every FSET / EXPIRE / PERSIST entry for (k,i) found the object when
+   the list ran from x0 — true of a shrinklog, whose entries were all `Updated`. *)
+Theorem c09_log_idempotent_object :
+  forall k i l1 l2 x0, fsorted x0 -> okl (l1 ++ l2) k i x0 ->
+    acts (l1 ++ l2) k i (acts l1 k i x0) = acts (l1 ++ l2) k i x0.
+Proof. exact log_idempotent. Qed.
+Print Assumptions c09_log_idempotent_object.
+
+(* Hooks and channels, repaired loader (a record that fails with "hooks and channels cannot share
+   the same name" is skipped like key-not-found): for ALL schedules of SETHOOK / SETCHAN / DELHOOK /
+   DELCHAN / PDELHOOK / PDELCHAN / FLUSHDB between the sections of the hooks phase, names changing
+   their kind included, the new file restores the registry. *)
+Theorem c09_hooks_preserved :
+  forall r0 sched, msorted r0 ->
+    let r := hrun_sched sched (hrun_init r0) in
+    hs_done (hr_sh r) = true -> forall n, get n (hreplay (hnewfile r) []) = get n (hr_live r).
+Proof. exact hooks_preserved. Qed.
+Print Assumptions c09_hooks_preserved.
+
+(* The reason, per name: the hook shrinklog is idempotent on the states of its own run.  hacts is
+   the exact per-name effect (errors ignored), okh what `logged` tells (a logged SET* found the name
+   absent or of its kind, a logged DEL* found it with that kind). *)
+Theorem c09_hook_log_idempotent :
+  forall n l1 l2 x0, okh (l1 ++ l2) n x0 ->
+    hacts (l1 ++ l2) n (hacts l1 n x0) = hacts (l1 ++ l2) n x0.
+Proof. exact hlog_idempotent. Qed.
+Print Assumptions c09_hook_log_idempotent.
+
+(* Hooks and channels, pinned loader: when every name keeps its kind the new file loads and
+   restores the registry. *)
+Theorem c09_hooks_orig_partial :
+  forall r0 sched kind, msorted r0 -> kind_consistent kind r0 sched = true ->
+    let r := hrun_sched sched (hrun_init r0) in
+    hs_done (hr_sh r) = true ->
+    exists reg, hreplay_orig (hnewfile r) [] = Some reg /\ forall n, get n reg = get n (hr_live r).
+Proof. exact hooks_orig_partial. Qed.
+Print Assumptions c09_hooks_orig_partial.
+
+(* Known finding: a name that changes its kind during the rewrite (SETHOOK x; DELHOOK x; SETCHAN x
+   logged before the hooks phase): the snapshot writes `setchan x`, the log then replays
+   `sethook x` and the pinned loader refuses to start. *)
+Theorem c09_hook_kind_switch_refuted :
+  exists r0 sched, msorted r0 /\ hs_done (hr_sh (hrun_sched sched (hrun_init r0))) = true /\
+    hreplay_orig (hnewfile (hrun_sched sched (hrun_init r0))) [] = None.
+Proof. exact hook_kind_switch_refuted. Qed.
+Print Assumptions c09_hook_kind_switch_refuted.
+
+(* TTL digits (tenths of a second; times in nanoseconds).  Objects: rounded down, at least 0.1 s:
+   a reloaded object never outlives its original deadline by rounding, except below 0.1 s. *)
+Theorem c09_ttl_floor :
+  forall ex now, (100000000 <= ex - now)%Z ->
+    let t := (obj_ttl_tenths ex now * 100000000)%Z in (t <= ex - now < t + 100000000)%Z.
+Proof. exact ttl_floor. Qed.
+Print Assumptions c09_ttl_floor.
+
+Theorem c09_ttl_minimum :
+  forall ex now, (ex - now < 100000000)%Z -> obj_ttl_tenths ex now = 1%Z.
+Proof. exact ttl_minimum. Qed.
+Print Assumptions c09_ttl_minimum.
+
+(* Hooks: rounded to the nearest tenth (half up), no lower bound. *)
+Theorem c09_hook_ttl_round :
+  forall ex now,
+    let t := (hook_ttl_tenths ex now * 100000000)%Z in (t - 50000000 <= ex - now < t + 50000000)%Z.
+Proof. exact hook_ttl_round. Qed.
+Print Assumptions c09_hook_ttl_round.
+
 (* ---------------------------------------------------------------- non-vacuity *)
 
 (* ten collections, one with 40 objects (more than maxids = 32, and more keys than maxkeys = 8):
@@ -166,22 +254,29 @@ Example c09_ex_quiescent :
   replay (newfile r) [] = ex_data.
 Proof. vm_compute. repeat split; reflexivity. Qed.
 
-(* writers (no RENAME) between the sections: the hypotheses of c09_concurrent_partial hold, the
+(* writers (no RENAME; SET with FIELD updates incl. a zero value, FSET, EXPIRE, PERSIST, DEL, PDEL,
+   DROP, on objects behind, at and ahead of the cursor; 8 of the 26 are not `Updated`) between the sections: the hypotheses of c09_concurrent_partial hold, the
    shrinklog is not empty, the live dataset differs from the initial one, and (as the theorem says)
    the new file replays to it *)
 Example c09_ex_concurrent :
   wfb ex_data = true /\ no_rename ex_sched = true /\
   let r := run_sched maxkeys maxids ex_sched (run_init ex_data) in
-  sh_done (r_sh r) = true /\ length (r_log r) = 9%nat /\
-  lookup [97] [48; 55] (r_live r) = Some [121] /\ lookup [97] [48; 55] ex_data = None /\
-  lookup [100] [48; 53] (r_live r) = None /\ lookup [100] [48; 53] ex_data = Some [120] /\
+  sh_done (r_sh r) = true /\ length (r_log r) = 18%nat /\
+  length (filter (fun e => match e with W _ => true | _ => false end) ex_sched) = 26%nat /\
+  lookup [98] [48; 48] ex_data = Some (mkObj [120] [([97], [49]); ([98], [50]); ([99], [51])] false) /\
+  lookup [98] [48; 48] (r_live r) = Some (mkObj [122] [([97], [49]); ([99], [51]); ([122], [57])] false) /\
+  lookup [97] [48; 49] ex_data = Some (mkObj [120] [([102], [55])] true) /\
+  lookup [97] [48; 49] (r_live r) = Some (mkObj [120] [([102], [56]); ([103], [49])] false) /\
+  lookup [100] [51; 57] (r_live r) = Some (mkObj [120] [([98], [50]); ([99], [57])] false) /\
+  lookup [100] [48; 53] (r_live r) = None /\ lookup [100] [50; 53] (r_live r) = None /\
+  lookup [101] [48; 48] (r_live r) = None /\
   replay (newfile r) [] = r_live r.
 Proof. vm_compute. repeat split; reflexivity. Qed.
 
 Example c09_ex_concurrent_flushdb :
   no_rename ex_sched_flush = true /\
   let r := run_sched maxkeys maxids ex_sched_flush (run_init ex_data) in
-  sh_done (r_sh r) = true /\ length (r_log r) = 4%nat /\ sh_out (r_sh r) <> [] /\
+  sh_done (r_sh r) = true /\ length (r_log r) = 5%nat /\ sh_out (r_sh r) <> [] /\
   length (flatten (r_live r)) = 2%nat /\
   replay (newfile r) [] = r_live r.
 Proof. vm_compute. repeat split; try reflexivity. discriminate. Qed.
@@ -192,7 +287,7 @@ Example c09_ex_crash_hyp :
   same_data (replay (f_snap ex_final ++ f_slog ex_final) []) (replay (f_live ex_final ++ f_pend ex_final) []) /\
   f_snap ex_final <> f_live ex_final /\
   lookup [98] [48; 49] (replay (f_live ex_final) []) = None /\
-  lookup [98] [48; 49] (replay (f_live ex_final ++ f_pend ex_final) []) = Some [122] /\
+  lookup [98] [48; 49] (replay (f_live ex_final ++ f_pend ex_final) []) = Some (mkObj [122] [] false) /\
   recover_dir (crash_at ex_final CP_after_rename_bak) = replay (f_live ex_final ++ f_pend ex_final) [] /\
   recover_dir_orig (crash_at ex_final CP_after_rename_bak) = [].
 Proof.
@@ -200,15 +295,15 @@ Proof.
   split; [discriminate|]. vm_compute. repeat split; reflexivity.
 Qed.
 
-(* the schedule of c09_ex_concurrent with six AOFSHRINK requests inserted (after a section, right
-   after a writer, twice in a row, before the last sections, at the very end): same shrinklog
+(* the schedule of c09_ex_concurrent with thirteen AOFSHRINK requests inserted (at the start, right
+   after each of the first writers, twice in a row, at the very end): same shrinklog
    length, same result *)
 Example c09_ex_requests :
   no_rename ex_sched_req = true /\
-  length (filter (fun e => match e with Req => true | _ => false end) ex_sched_req) = 6%nat /\
+  length (filter (fun e => match e with Req => true | _ => false end) ex_sched_req) = 13%nat /\
   let r := run_sched maxkeys maxids ex_sched_req (run_init ex_data) in
   let r0 := run_sched maxkeys maxids ex_sched (run_init ex_data) in
-  sh_done (r_sh r) = true /\ r_shrinking r = true /\ length (r_log r) = 9%nat /\ r = r0 /\
+  sh_done (r_sh r) = true /\ r_shrinking r = true /\ length (r_log r) = 18%nat /\ r = r0 /\
   replay (newfile r) [] = r_live r.
 Proof. vm_compute. repeat split; reflexivity. Qed.
 
@@ -226,3 +321,22 @@ Example c09_ex_leftovers :
   rewrite_dir d1 ex_final2 = mkDir (Some (f_snap ex_final2 ++ f_slog ex_final2)) None None /\
   recover_dir (rewrite_dir d1 ex_final2) = replay (f_live ex_final2 ++ f_pend ex_final2) [].
 Proof. vm_compute. repeat split; try reflexivity. discriminate. Qed.
+
+(* hooks phase: SETHOOK / DELCHAN / DELHOOK of the wrong kind (not updated) / SETHOOK with expiration
+   / PDELCHAN / SETCHAN between the sections; every name keeps its kind; both loaders restore the
+   registry, which differs from the initial one *)
+Example c09_ex_hooks :
+  sortedb (keys ex_hooks) = true /\ kind_consistent ex_hkind ex_hooks ex_hsched = true /\
+  let r := hrun_sched ex_hsched (hrun_init ex_hooks) in
+  hs_done (hr_sh r) = true /\ length (hr_log r) = 5%nat /\ length (hs_out (hr_sh r)) = 3%nat /\
+  length (hr_live r) = 4%nat /\ get [98] (hr_live r) = None /\ get [98] ex_hooks <> None /\
+  get [97] (hr_live r) = Some (mkHook false [57] true) /\
+  hreplay_orig (hnewfile r) [] = Some (hr_live r) /\ hreplay (hnewfile r) [] = hr_live r.
+Proof. vm_compute. repeat split; try reflexivity. discriminate. Qed.
+
+(* the kind-switch schedule: the pinned loader fails, the repaired one restores the registry *)
+Example c09_ex_hook_kind_switch :
+  let r := hrun_sched hsched_switch (hrun_init []) in
+  hs_done (hr_sh r) = true /\ hr_live r = [([120], chanB)] /\ length (hnewfile r) = 4%nat /\
+  hreplay_orig (hnewfile r) [] = None /\ hreplay (hnewfile r) [] = hr_live r.
+Proof. vm_compute. repeat split; reflexivity. Qed.
